@@ -190,34 +190,45 @@ def nontrivial(case) -> bool:
 # running
 
 
-def fresh_final(cases, workers: int = 8) -> list:
-    """Reference (b): for every case, a new interpreter performs only the final op on tasks carrying their current values."""
+def fresh_final(cases, chunk: int = 1, workers: int = 8) -> list:
+    """Reference (b): a new interpreter performs only the final op on task instances carrying their current values.
+    `chunk` cases share one child process (each request starts with `Workflow.clear_cache()`, new classes, new task
+    instances, new cache roots); `chunk=1` is one interpreter per case."""
 
-    def one(case):
+    def one(group):
         try:
             p = subprocess.run(
                 [core.PY, "-m", "harness.engines.wfcache"],
-                input=json.dumps(case) + "\n",
+                input="".join(json.dumps(c) + "\n" for c in group),
                 capture_output=True,
                 text=True,
-                timeout=300,
+                timeout=600,
                 env=core.impl_env({"PYTHONDONTWRITEBYTECODE": "1"}),
                 cwd=str(core.VERIF),
             )
             lines = [l for l in p.stdout.splitlines() if l.strip()]
-            if p.returncode != 0 or len(lines) != 1:
-                return {"child-failed": (p.stderr or p.stdout)[-400:]}
-            return json.loads(lines[0])
+            if p.returncode != 0 or len(lines) != len(group):
+                return [{"child-failed": (p.stderr or p.stdout)[-400:]}] * len(group)
+            return [json.loads(l) for l in lines]
         except subprocess.TimeoutExpired:
-            return {"child-failed": "timeout"}
+            return [{"child-failed": "timeout"}] * len(group)
 
+    groups = [cases[k : k + chunk] for k in range(0, len(cases), chunk)]
     with ThreadPoolExecutor(max_workers=workers) as ex:
-        return list(ex.map(one, cases))
+        return [r for rs in ex.map(one, groups) for r in rs]
 
 
 def run_cases(ctx, cases, label="generated"):
     impls = [wfcache.run_history(c, ctx.scratch) for c in cases]
-    refs = fresh_final(cases)
+    # fresh interpreters: in chunks (one interpreter serves several cases, cache cleared in between), plus one interpreter
+    # of its own for a sample of the cases — the two must give the same answers
+    refs = fresh_final(cases, chunk=max(1, (len(cases) + 7) // 8))
+    sample = list(range(min(len(cases), ctx.pick(4, 40))))
+    own = fresh_final([cases[k] for k in sample], chunk=1)
+    for k, r in zip(sample, own):
+        if r != refs[k]:
+            ctx.tie_broken.append({"kind": "fresh-interpreter-answers-differ", "case": cases[k], "own": r, "chunked": refs[k]})
+    ctx.extra["fresh_interpreters"] = ctx.extra.get("fresh_interpreters", 0) + len(sample) + min(8, len(cases))
     ans = ctx.driver("WfCache", [wfcache.for_driver(c) for c in cases])
     for k, (c, i, ref) in enumerate(zip(cases, impls, refs)):
         a = ans[k] if ans is not None else None
